@@ -1,10 +1,13 @@
 (* Glue between text case files and the extracted model: part of the trusted base. *)
-open Model
+module L = Stdlib.List
+module S = Stdlib.String
+open BinNums
+open Datatypes
 
 let rec pos_of_int (i : int) : positive =
-  if i = 1 then XH else if i land 1 = 0 then XO (pos_of_int (i lsr 1)) else XI (pos_of_int (i lsr 1))
-let n_of_int (i : int) : n = if i = 0 then N0 else Npos (pos_of_int i)
-let rec int_of_pos = function XH -> 1 | XO p -> 2 * int_of_pos p | XI p -> 2 * int_of_pos p + 1
+  if i = 1 then Coq_xH else if i land 1 = 0 then Coq_xO (pos_of_int (i lsr 1)) else Coq_xI (pos_of_int (i lsr 1))
+let n_of_int (i : int) : coq_N = if i = 0 then N0 else Npos (pos_of_int i)
+let rec int_of_pos = function Coq_xH -> 1 | Coq_xO p -> 2 * int_of_pos p | Coq_xI p -> 2 * int_of_pos p + 1
 let int_of_n = function N0 -> 0 | Npos p -> int_of_pos p
 let rec int_of_nat = function O -> 0 | S n -> 1 + int_of_nat n
 let rec nat_of_int i = if i <= 0 then O else S (nat_of_int (i - 1))
@@ -13,14 +16,14 @@ let hexval c = match c with
   | '0'..'9' -> Char.code c - 48 | 'a'..'f' -> Char.code c - 87 | 'A'..'F' -> Char.code c - 55
   | _ -> failwith "bad hex"
 let bytes_of_hex (h : string) : string =
-  let n = String.length h / 2 in
-  String.init n (fun i -> Char.chr (hexval h.[2*i] * 16 + hexval h.[2*i+1]))
+  let n = S.length h / 2 in
+  S.init n (fun i -> Char.chr (hexval h.[2*i] * 16 + hexval h.[2*i+1]))
 
 (* decode valid UTF-8 into code points *)
 let codepoints_of_utf8 (s : string) : int list =
-  let n = String.length s in
+  let n = S.length s in
   let rec go i acc =
-    if i >= n then List.rev acc else
+    if i >= n then L.rev acc else
     let b = Char.code s.[i] in
     if b < 0x80 then go (i+1) (b :: acc)
     else if b < 0xE0 then go (i+2) ((((b land 0x1F) lsl 6) lor (Char.code s.[i+1] land 0x3F)) :: acc)
@@ -33,7 +36,7 @@ let codepoints_of_utf8 (s : string) : int list =
 
 let utf8_of_codepoints (l : int list) : string =
   let b = Buffer.create 16 in
-  List.iter (fun c ->
+  L.iter (fun c ->
     if c < 0x80 then Buffer.add_char b (Char.chr c)
     else if c < 0x800 then (Buffer.add_char b (Char.chr (0xC0 lor (c lsr 6)));
                             Buffer.add_char b (Char.chr (0x80 lor (c land 0x3F))))
@@ -46,15 +49,29 @@ let utf8_of_codepoints (l : int list) : string =
           Buffer.add_char b (Char.chr (0x80 lor (c land 0x3F))))) l;
   Buffer.contents b
 
-let str_of_hex (h : string) : n list = List.map n_of_int (codepoints_of_utf8 (bytes_of_hex h))
-let hex_of_str (s : n list) : string =
-  let u = utf8_of_codepoints (List.map int_of_n s) in
-  let b = Buffer.create (2 * String.length u) in
-  String.iter (fun c -> Buffer.add_string b (Printf.sprintf "%02x" (Char.code c))) u;
+let str_of_hex (h : string) : coq_N list = L.map n_of_int (codepoints_of_utf8 (bytes_of_hex h))
+let hex_of_str (s : coq_N list) : string =
+  let u = utf8_of_codepoints (L.map int_of_n s) in
+  let b = Buffer.create (2 * S.length u) in
+  S.iter (fun c -> Buffer.add_string b (Printf.sprintf "%02x" (Char.code c))) u;
   Buffer.contents b
 
 let hx = hex_of_str
 let opt_hex = function None -> "-" | Some s -> "+" ^ hx s
 let bool_s b = if b then "1" else "0"
-let cat sep l = String.concat sep l
-let split_tab (l : string) = String.split_on_char '\t' l
+let cat sep l = S.concat sep l
+let split_tab (l : string) = S.split_on_char '\t' l
+
+(* ---- stream registry: every runner/s_*.ml registers its streams at module initialisation ---- *)
+let streams : (string * (string list -> string)) list ref = ref []
+let register (name : string) (f : string list -> string) = streams := (name, f) :: !streams
+
+let res_str (f : 'a -> string) (r : 'a Base.res) : string =
+  match r with
+  | Base.Ok a -> f a
+  | Base.Err _ -> "ERR"
+  | Base.Panic _ -> "PANIC"
+  | Base.OutOfFuel -> "HANG"
+
+(* a record any of whose parts is HANG is HANG as a whole (the harness can only kill the whole case) *)
+let whole_hang (parts : string list) (r : string) = if L.mem "HANG" parts then "HANG" else r
